@@ -15,9 +15,9 @@ import (
 	"verif/harness/convdrv"
 	"verif/harness/helpdrv"
 	"verif/harness/injdrv"
+	"verif/harness/isolate"
 	"verif/harness/launchdrv"
 	"verif/harness/legacydrv"
-	"verif/harness/isolate"
 	"verif/harness/muxdrv"
 	"verif/harness/ocidrv"
 	"verif/harness/relaydrv"
@@ -32,6 +32,9 @@ func fail(err error) {
 }
 
 func main() {
+	if os.Getenv(legacydrv.SkelEnv) != "" { // the driver executable as a plain skel.Run program (X05)
+		os.Exit(legacydrv.PluginMain())
+	}
 	if len(os.Args) < 2 {
 		fail(fmt.Errorf("usage: driver <module> [flags]"))
 	}
